@@ -146,6 +146,23 @@ def runSpec (sp : Spec) (inp : Int × List UInt8) : Option (List Tok) :=
 def classMapOk (sp : Spec) : Bool :=
   classMapOkUpTo sp (if sp.opts.scanBytes then 256 else 0x110000)
 
+/-- Diagnostic: the clauses of `tablesWF` one by one. -/
+def wfDetail (sp : Spec) (exempt : List Int) : String :=
+  let cl : List (String × Bool) := [
+    ("tables.wf", sp.t.wf),
+    ("dfa.size", decide (sp.t.dfa.size = numStates sp.t * sp.t.numSymbols.toNat)),
+    ("scanBytes", decide (sp.t.scanBytes = sp.opts.scanBytes)),
+    ("invalidAct", decide (0 ≤ invalidAct sp) && (tokenOf sp (invalidAct sp)).isSome),
+    ("classMapInRange", classMapInRange sp.cm sp.t.numSymbols),
+    ("finalActions", sp.t.dfa.all (fun e => decide (e > actionStart sp.t) || e == actionStart sp.t - invalidAct sp ||
+      actOk sp exempt (actionStart sp.t - e))),
+    ("checkpoints", sp.t.backtrack.all (fun bt => actOk sp exempt bt.action)),
+    ("startRows", (startStates sp).all (startRowOk sp exempt) && !(startStates sp).isEmpty),
+    ("eoiChains", (List.range (numStates sp.t)).all (fun s => (eoiChain sp.t (numStates sp.t + 1) s).isSome)),
+    ("spaceNotInvalid", !sp.spaceActions.contains (invalidAct sp)),
+    ("classActions", sp.classActions.all (fun (a, m) => !isInvalid sp a && keysNodup m && m.all fun (_, x) => actOk sp exempt x))]
+  " ".intercalate (cl.map fun (n, b) => s!"{n}={showBool b}")
+
 def answer (c : Case) : String :=
   let hdr := s!"wf={showBool (tablesWF c.sp c.exempt)} map={showBool (classMapOk c.sp)} eoif={showBool (eoiFinal c.sp.t)}"
   if c.inputs.isEmpty then hdr
@@ -190,6 +207,7 @@ def handle (args : List String) : Option String :=
     let m ← parseKwMap m
     some (showSwitch (asStringSwitch (stringHash b) m))
   | "lex" :: rest => (parseCase rest).map answer
+  | "wfdetail" :: rest => (parseCase rest).map fun c => wfDetail c.sp c.exempt
   | "judge" :: rest =>
     let (goToks, caseToks) := splitAt "::" rest
     judge goToks caseToks
